@@ -4,6 +4,10 @@
 (*   [v, w     -- sink.valid, the four input symbols                        *)
 (*    ov, ow]  -- source.valid and the four output symbols, sampled before  *)
 (*                the clock edge of the same cycle                          *)
+(*    rst]     -- the `ss` domain reset is asserted in this cycle (the     *)
+(*                harness offers no input word then): what is delivered in  *)
+(*                this cycle is still checked; afterwards nothing that was  *)
+(*                buffered may ever be delivered (a new stream begins).     *)
 (***************************************************************************)
 EXTENDS CtcRx, TLC, TLCExt, Json, IOUtils
 
@@ -32,7 +36,7 @@ TNext == /\ status = "ok"
          /\ l <= Len(Logs[tid])
          /\ LET r == Logs[tid][l] IN
               /\ status' = Failing(r)
-              /\ pend' = PendNext(pend, InOf(r), OutOf(r))
+              /\ pend' = IF r.rst THEN <<>> ELSE PendNext(pend, InOf(r), OutOf(r))
          /\ l' = l + 1
          /\ UNCHANGED tid
 
